@@ -16,15 +16,24 @@ PROP = Property(
         VerusUnit("check_indices", "verus/C01/check_indices.tmpl.rs",
                   "verifier side (shared with C01): Ok ==> every index < m and is_lottery_won(phi_f, dense(sigma,msg,index), stake, total)",
                   ["SingleSignatureForConcatenation::check_indices"]),
+        VerusUnit("zero_stake", "verus/C08/zero_stake.tmpl.rs",
+                  "extracted text of the decision procedure (num-integer backend): taylor_comparison(bound, cmp, x) with x = 0 and cmp >= 1 returns false for EVERY bound (loop with inductive invariant over exact rational "
+                  "arithmetic); is_lottery_won(phi_f, ev, 0, total) is false for every draw value, every total > 0 and every phi_f that is not 1 (zero stake always loses); phi_f = 1 ==> won",
+                  ["is_lottery_won", "taylor_comparison"]),
     ],
-    replays=[dict(crate="mithril-stm", file="mithril-stm/src/proof_system/concatenation/signer.rs", module="replays/c08_lottery.rs"),
+    replays=[dict(crate="mithril-stm", file=EL, module="replays/c08_eligibility.rs"),
+             dict(crate="mithril-stm", file="mithril-stm/src/proof_system/concatenation/signer.rs", module="replays/c08_lottery.rs"),
              dict(crate="mithril-stm", file="mithril-stm/src/proof_system/concatenation/single_signature.rs", module="replays/c01_sig.rs")],
     assumptions=[
-        "PARTIAL: only the boundary clause phi_f = 1 and the clause 'identical decision for signer and verifier' are decided",
+        "PARTIAL: the boundary clauses phi_f = 1 (always won) and stake = 0 (always lost), and the clause 'identical decision for signer and verifier' are decided",
+        "zero_stake unit: num_rational::Ratio<BigInt> / num_bigint::BigInt are specified EXACTLY as fractions n/d and integers (every operator contract gives a representative of the exact result; zero is kept as 0/1 and x + 0 as x - "
+        "the library normalises anyway and comparisons are by cross-multiplication, so the representative does not matter); that the num crates implement exact arithmetic is assumed; the f64 test |phi_f - 1| < EPSILON, "
+        "f64 ln + Ratio::from_float and the constant 2^512 are contract fns (ln's value is irrelevant for zero stake: it is multiplied by 0); `a += b` is rewritten to `a = a + b`, `for _ in` to a named loop variable, One::one() to the "
+        "typed constructor; total_stake > 0 is a precondition (a closed registration has a positive total stake)",
         "is_lottery_won is one function called by both sides; in the Verus units it is an uninterpreted function of (phi_f, draw, stake, total) - its determinism is that of num-bigint/num-rational/f64::ln (assumed)",
-        "exactness of the Taylor evaluation against 1-(1-phi_f)^(stake/total), monotonicity in stake and draw, and 'zero stake always loses' are NOT decided: they go through f64::ln, Ratio::from_float and unbounded rational arithmetic, for which neither verifier has a theory (Verus: no exp/ln; CBMC: BigInt loops do not terminate symbolically); the error factor 3 in taylor_comparison is only a valid tail bound for x <= 2, i.e. phi_f <= 1 - e^-2 (hand analysis, DESIGN.md)",
+        "exactness of the Taylor evaluation against 1-(1-phi_f)^(stake/total), and monotonicity in stake and draw are NOT decided: they go through f64::ln, Ratio::from_float and unbounded rational arithmetic, for which neither verifier has a theory (Verus: no exp/ln; CBMC: BigInt loops do not terminate symbolically); the error factor 3 in taylor_comparison is only a valid tail bound for x <= 2, i.e. phi_f <= 1 - e^-2 (hand analysis, DESIGN.md)",
         "the rug back end (not built by default) is not covered",
     ],
-    explanation="Partial: boundary clause by a loop-free Kani harness over the full input domain; signer/verifier agreement by Verus on the extracted text of both loops against one uninterpreted lottery predicate.",
-    not_decided=["exactness vs the real-valued threshold", "monotonicity in stake / draw", "zero stake always loses", "numerically negligible band"],
+    explanation="Partial: the zero-stake clause by Verus on the extracted decision procedure with exact rational arithmetic (loop invariant, any iteration bound); the phi_f = 1 clause by a loop-free Kani harness over the full input domain; signer/verifier agreement by Verus on the extracted text of both loops against one uninterpreted lottery predicate.",
+    not_decided=["exactness vs the real-valued threshold", "monotonicity in stake / draw", "numerically negligible band"],
 )
